@@ -175,6 +175,32 @@ pub fn gen(id: &str, r: &mut Rng, out: &mut Vec<Case>) {
             }
             out.push(case(&format!("hk_{}", name), '-', 0, args));
         }
+        "HKMIDI" => {
+            // the digit-group helpers of bid128_to_string on their own input space: multiples of 10^3 / 10^6 / 10^9 / 10^18 and their
+            // neighbours (where the reciprocal estimates are one too small and the single correction decides), the domain bounds,
+            // and arbitrary words (out of the callers' domain the three sides must still agree)
+            fn shaped(r: &mut Rng, bound: u64) -> u64 {
+                let base = *r.pick(&[1_000u64, 1_000_000, 1_000_000_000, 1_000_000_000_000, 1_000_000_000_000_000, 1_000_000_000_000_000_000]);
+                match r.below(8) {
+                    0 => r.below(bound.max(1)),
+                    1 => { let k = r.below((bound / base).max(1) + 1); (k.wrapping_mul(base)).wrapping_add(*r.pick(&[0u64, 1, 2, 999, 1000, u64::MAX, u64::MAX - 1])) }
+                    2 => bound.wrapping_sub(1 + r.below(3)),
+                    3 => bound.wrapping_add(r.below(3)),
+                    4 => r.below(1000),
+                    5 => hk_word(r),
+                    6 => { let k = 1 + r.below(999); k * (bound / 1000).max(1) + *r.pick(&[0u64, 1]) * r.below(1000) }
+                    _ => r.below(bound.max(1)) / base * base,
+                }
+            }
+            match r.below(5) {
+                0 => out.push(case("hk_split_midi_2", '-', 0, vec![Val::G(if r.chance(1, 8) { r.below(1u64 << 32) } else { shaped(r, 1_000_000) & 0xffff_ffff })])),
+                1 => out.push(case("hk_split_midi_3", '-', 0, vec![Val::G(if r.chance(1, 8) { r.below(1u64 << 32) } else { shaped(r, 1_000_000_000) & 0xffff_ffff })])),
+                2 => out.push(case("hk_split_midi_6", '-', 0, vec![Val::G(shaped(r, 1_000_000_000_000_000_000))])),
+                3 => out.push(case("hk_split_midi_6_lead", '-', 0, vec![Val::G(shaped(r, 1_000_000_000_000_000_000))])),
+                _ => { let lo = match r.below(4) { 0 => 1_000_000_000_000_000_000u64.wrapping_add(r.below(5)).wrapping_sub(2), 1 => r.below(2_000_000_000_000_000_000), 2 => hk_word(r), _ => 999_999_999_999_999_999 + r.below(3) };
+                       out.push(case("hk_normalize_10to18", '-', 0, vec![Val::G(hk_word(r)), Val::G(lo)])); }
+            }
+        }
         "FMASUB" => {
             let (x, y, z) = fma_subnormal_product_triple(r);
             out.push(case("fused_multiply_add", mode_tok(r), 0, vec![d(x), d(y), d(z)]));
